@@ -186,7 +186,12 @@ pub fn generate(prop: Prop, seed: u64, run: u64, thorough: bool) -> RunSpec {
         }
     }
     let zst = spec.cfg.elem.is_zst();
-    if prop == Prop::C05 && spec.cfg.elem.has_drop() && rng.chance(if zst { 3 } else { 1 }, 4) && !spec.ops.is_empty() {
+    if prop == Prop::C05 && !zst && spec.mode.is_none() && rng.chance(1, 8) {
+        // logic-error keys: inconsistent Hash / Eq; only memory safety is judged
+        spec.cfg.chaos = Some(rng.next_u64());
+        spec.faults.clear();
+    }
+    if prop == Prop::C05 && spec.cfg.chaos.is_none() && spec.cfg.elem.has_drop() && rng.chance(if zst { 3 } else { 1 }, 4) && !spec.ops.is_empty() {
         // a destructor of a stored object panics: the nth one run inside an operation that
         // drops elements in place (retain, drain_filter, clear, early-dropped iterators,
         // clone_from's destination), or inside any operation
@@ -231,6 +236,15 @@ fn arg_u64(args: &[String], name: &str, default: u64) -> u64 {
     arg(args, name).map(|s| s.parse().expect("numeric argument")).unwrap_or(default)
 }
 
+/// Wall-clock second (since the epoch) after which enumerating drivers stop starting new
+/// continuations: the batch cap must also hold inside one long enumeration. 0 = none.
+pub static DEADLINE_UNIX: std::sync::atomic::AtomicU64 = std::sync::atomic::AtomicU64::new(0);
+
+pub fn past_deadline() -> bool {
+    let d = DEADLINE_UNIX.load(Ordering::Relaxed);
+    d != 0 && std::time::SystemTime::now().duration_since(std::time::UNIX_EPOCH).map_or(false, |t| t.as_secs() >= d)
+}
+
 fn cmd_run(args: &[String]) -> i32 {
     let prop = Prop::parse(arg(args, "--prop").expect("--prop")).expect("property id");
     let seed = arg_u64(args, "--seed", 1);
@@ -270,6 +284,9 @@ fn cmd_run(args: &[String]) -> i32 {
         }
         None => -1,
     };
+    if let Ok(t) = std::time::SystemTime::now().duration_since(std::time::UNIX_EPOCH) {
+        DEADLINE_UNIX.store(t.as_secs() + max_secs + 30, Ordering::Relaxed);
+    }
     let mut i = from + offset;
     while i < from + count {
         if t0.elapsed().as_secs() >= max_secs {
